@@ -26,6 +26,8 @@ type Job struct {
 	MaxPaths  int
 	Tag       string // free: used by the property post-processing
 	NoPanic   bool   // do not turn implicit-panic obligations into results
+	BudgetS   int    // wall-clock budget of this job in seconds (0 = the check's budget)
+	Alias     bool   // solver-backed alias resolution of memory reads (multi-Step harnesses)
 }
 
 type OblResult struct {
@@ -73,6 +75,7 @@ type Runner struct {
 	auditLog  []auditEntry
 	mu        sync.Mutex
 	dumpDir   string
+	deadline  time.Time
 }
 
 func (r *Runner) RunJobs(jobs []Job) []JobResult {
@@ -160,6 +163,17 @@ func (r *Runner) runJob(job Job, st *Store, sol *Solver) (jr JobResult) {
 	e := &Exec{st: st, sol: sol, prog: r.L.prog, L: r.L, overrides: job.Overrides, harnessPkg: pkg,
 		funcsSeen: jr.Funcs, maxForks: 64, unwind: 70000, qcache: map[[2]int]Verdict{},
 		globalW: map[string]bool{}, globalR: map[string]bool{}, loopFuncs: map[string]bool{}}
+	e.aliasResolve = job.Alias
+	e.deadline = r.deadline
+	if job.BudgetS > 0 {
+		if d := time.Now().Add(time.Duration(job.BudgetS) * time.Second); e.deadline.IsZero() || d.Before(e.deadline) {
+			e.deadline = d
+		}
+	}
+	if !r.deadline.IsZero() && time.Now().After(r.deadline) {
+		jr.Undecided = append(jr.Undecided, "time budget of the check exceeded before this job started")
+		return
+	}
 	if job.MaxForks > 0 {
 		e.maxForks = job.MaxForks
 	}
@@ -177,6 +191,10 @@ func (r *Runner) runJob(job Job, st *Store, sol *Solver) (jr JobResult) {
 		work = work[:len(work)-1]
 		if jr.Paths >= maxPaths {
 			jr.Undecided = append(jr.Undecided, "path bound exceeded")
+			break
+		}
+		if !e.deadline.IsZero() && time.Now().After(e.deadline) {
+			jr.Undecided = append(jr.Undecided, "time budget exceeded")
 			break
 		}
 		pr := e.RunPath(fn, r.argsFor(e, fn, job.Params), prefix)
